@@ -134,32 +134,35 @@ def mutable_lines(tree, src_lines):
     return mut, headers
 
 
-def line_identity_violations(before, after, before_tree):
-    """lines of `before` outside mutable spans must survive byte-identical, in order"""
+def _subsequence_misses(needles, hay):
+    """needles (in order) that cannot be matched as a subsequence of hay (greedy earliest match is exact)"""
+    pos, missing = 0, []
+    for ln, text in needles:
+        try:
+            pos = hay.index(text, pos) + 1
+        except ValueError:
+            missing.append((ln, text))
+    return missing
+
+
+def line_identity_violations(before, after, before_tree, after_tree=None):
+    """Every non-blank line of `before` outside definition headers / docstrings / annotated assignments must
+    survive byte-identical and in order (a subsequence of `after`); symmetrically, `after` must not contain
+    new non-blank lines outside such spans. Independent of any diff alignment."""
     bl, al = before.splitlines(True), after.splitlines(True)
-    mut, headers = mutable_lines(before_tree, bl)
+    mut_b, _ = mutable_lines(before_tree, bl)
     out = []
-    sm = difflib.SequenceMatcher(a=bl, b=al, autojunk=False)
-    for tag, i1, i2, j1, j2 in sm.get_opcodes():
-        if tag == "equal":
-            continue
-        if tag in ("replace", "delete"):
-            # difflib's alignment inside a rewritten region is heuristic: the immutable, non-blank lines of
-            # the region must occur, in order and byte-identical, in the region that replaced it
-            keep = [ln for ln in range(i1 + 1, i2 + 1) if ln not in mut and bl[ln - 1].strip()]
-            region = al[j1:j2] if tag == "replace" else []
-            pos, bad = 0, []
-            for ln in keep:
-                try:
-                    pos = region.index(bl[ln - 1], pos) + 1
-                except ValueError:
-                    bad.append(ln)
-            if bad:
-                out.append({"kind": tag, "before_lines": bad[:5], "text": [bl[ln - 1] for ln in bad[:3]],
-                            "after_text": al[j1:j2][:3]})
-        if tag in ("insert", "replace") and tag == "insert":
-            prev_ok = i1 in headers or (i1 + 1) in mut or i1 in mut
-            new = [l for l in al[j1:j2] if l.strip()]
-            if new and not prev_ok:
-                out.append({"kind": "insert", "after_position": i1, "text": new[:3]})
+    keep = [(i + 1, l) for i, l in enumerate(bl) if (i + 1) not in mut_b and l.strip()]
+    # a line that lost only its trailing newline at EOF is still the same line
+    al_n = [l if l.endswith("\n") else l + "\n" for l in al]
+    miss = _subsequence_misses([(ln, l if l.endswith("\n") else l + "\n") for ln, l in keep], al_n)
+    if miss:
+        out.append({"kind": "replace", "before_lines": [ln for ln, _ in miss[:5]], "text": [t for _, t in miss[:3]]})
+    if after_tree is not None:
+        mut_a, _ = mutable_lines(after_tree, al)
+        new = [(i + 1, l if l.endswith("\n") else l + "\n") for i, l in enumerate(al) if (i + 1) not in mut_a and l.strip()]
+        bl_n = [l if l.endswith("\n") else l + "\n" for l in bl]
+        extra = _subsequence_misses(new, bl_n)
+        if extra:
+            out.append({"kind": "insert", "after_lines": [ln for ln, _ in extra[:5]], "text": [t for _, t in extra[:3]]})
     return out
